@@ -2,6 +2,7 @@
 //! line per observation. The extracted Coq model (ocaml/driver) re-computes every line.
 mod abi;
 mod bitboard;
+mod bot;
 mod chess;
 mod fen;
 mod iter;
@@ -68,6 +69,10 @@ fn main() {
         "builder" => fen::builders(&mut out, &mut rng, n),
         "book" => chess::book(&mut out),
         "iter" => iter::sequences(&mut out, &mut rng, n),
+        "bot" => {
+            let so = args.get(3).cloned().unwrap_or_default();
+            bot::run(&mut out, &mut rng, n, &so)
+        }
         "search" => {
             let kmax: u64 = args.get(3).and_then(|s| s.parse().ok()).unwrap_or(600);
             search::run(&mut out, &mut rng, n, kmax)
@@ -91,6 +96,10 @@ fn main() {
                 "BK" | "BKS" => chess::book(&mut out),
                 "GI" => iter::replay(&mut out, &f),
                 "SR" | "MR" => search::replay(&mut out, &f),
+                "BT" => {
+                    let root = std::env::var("VERIF_ROOT").unwrap_or("/verif".into());
+                    bot::replay(&mut out, &f, &format!("{root}/.cache/target/bot/release/libchess_bot.so"))
+                }
                 k => {
                     eprintln!("replay: unknown kind {k}");
                     std::process::exit(2)
